@@ -6,7 +6,7 @@ import prelude as P
 NAME = 'enum_glue'
 BACKEND = 'enum'
 CONN = 'crates/anemo/src/connection.rs'
-COVER = {'peer_id_from_first_certificate': [0], 'pinned_verifier': [0], 'allow_list_layer': [0]}
+COVER = {'peer_id_from_first_certificate': [0], 'pinned_verifier': [0], 'allow_list_layer': [0], 'stacked_allow_lists': [0], 'gate_sequence': [0]}
 
 PRELUDE = r'''// GENERATED on every run by /verif/vc from /repo's working tree -- do not edit
 #![allow(dead_code, unused, non_upper_case_globals)]
@@ -68,8 +68,22 @@ pub use crypto::peer_id_from_certificate;
 // ---- stand-ins for the authorization layer (anemo-tower/src/auth)
 pub mod anemo { pub use super::PeerId; pub mod types { pub mod response { pub use super::super::super::{IntoResponse, StatusCode}; } } }
 #[derive(Debug, PartialEq, Clone)] pub struct Bytes(pub u8);
-pub struct Request<T> { pub sender: Option<PeerId>, pub body: T }
-impl<T> Request<T> { pub fn peer_id(&self) -> Option<&PeerId> { self.sender.as_ref() } }
+#[derive(Default)]
+pub struct Extensions { pub items: Vec<(std::any::TypeId, Box<dyn std::any::Any>)> }
+impl Extensions {
+    pub fn get<X: 'static>(&self) -> Option<&X> { self.items.iter().find(|(t, _)| *t == std::any::TypeId::of::<X>()).and_then(|(_, b)| b.downcast_ref::<X>()) }
+    pub fn insert<X: 'static>(&mut self, v: X) -> Option<X> { self.items.retain(|(t, _)| *t != std::any::TypeId::of::<X>()); self.items.push((std::any::TypeId::of::<X>(), Box::new(v))); None }
+}
+pub struct Request<T> { pub sender: Option<PeerId>, pub body: T, pub ext: Extensions }
+impl<T> Request<T> {
+    pub fn peer_id(&self) -> Option<&PeerId> { self.sender.as_ref() }
+    pub fn extensions(&self) -> &Extensions { &self.ext }
+    pub fn extensions_mut(&mut self) -> &mut Extensions { &mut self.ext }
+}
+impl<S: Service<Request<Bytes>>, A: AuthorizeRequest> Service<Request<Bytes>> for RequireAuthorization<S, A> {
+    type Future = ResponseFuture<S::Future>;
+    fn call(&mut self, req: Request<Bytes>) -> Self::Future { RequireAuthorization::call(self, req) }
+}
 #[derive(Debug, PartialEq)] pub struct Response<T> { pub status: StatusCode, pub body: T }
 pub trait IntoResponse { fn into_response(self) -> Response<Bytes>; }
 impl IntoResponse for StatusCode { fn into_response(self) -> Response<Bytes> { Response { status: self, body: Bytes(0) } } }
@@ -130,7 +144,7 @@ pub fn main() {
     if args.len() == 4 && args[1] == "--replay" {
         let choices: Vec<(u32, u32)> = args[3].split(',').filter(|s| !s.is_empty()).map(|s| (s.trim().parse().unwrap(), u32::MAX)).collect();
         let mut ch = Chooser { path: choices, pos: 0 };
-        match args[2].as_str() { "pinned_verifier" => harness::pinned_verifier(&mut ch), "allow_list_layer" => harness::allow_list_layer(&mut ch), _ => harness::peer_id_from_first_certificate(&mut ch) }
+        match args[2].as_str() { "pinned_verifier" => harness::pinned_verifier(&mut ch), "allow_list_layer" => harness::allow_list_layer(&mut ch), "stacked_allow_lists" => harness::stacked_allow_lists(&mut ch), "gate_sequence" => harness::gate_sequence(&mut ch), _ => harness::peer_id_from_first_certificate(&mut ch) }
         println!("no assertion failed for this choice sequence");
         return;
     }
@@ -138,6 +152,8 @@ pub fn main() {
     run_all("peer_id_from_first_certificate", harness::peer_id_from_first_certificate);
     run_all("pinned_verifier", harness::pinned_verifier);
     run_all("allow_list_layer", harness::allow_list_layer);
+    run_all("stacked_allow_lists", harness::stacked_allow_lists);
+    run_all("gate_sequence", harness::gate_sequence);
 }
 pub mod harness {
     use super::*;
@@ -154,6 +170,48 @@ pub mod harness {
         let s = if ch.any_bool() { cover(0); v.verify_tls13_signature(&[1, 2, 3], &cert, &dss) } else { v.verify_tls12_signature(&[1, 2, 3], &cert, &dss) };
         assert!(s.is_ok() == want, "handshake signature accepted without proof of the private key (or a valid one refused)");
     }
+    pub fn stacked_allow_lists(ch: &mut Chooser) { // @EOBL [C20] @BOUNDED two allow-list layers stacked on one request path, every pair of lists over 2 peers (16 pairs) x sender absent / peer 1 / peer 2 / peer 3: the innermost service is invoked iff the sender is in BOTH lists (each authorizer accepts exactly the senders in ITS list, whatever an outer layer decided)
+        let (p1, p2, p3) = (PeerId([1; 32]), PeerId([2; 32]), PeerId([3; 32]));
+        let (mut outer, mut inner) = (Vec::new(), Vec::new());
+        if ch.any_bool() { outer.push(p1); }
+        if ch.any_bool() { outer.push(p2); }
+        if ch.any_bool() { inner.push(p1); }
+        if ch.any_bool() { inner.push(p2); }
+        let s = ch.below(4);
+        let sender = if s == 0 { None } else if s == 1 { Some(p1) } else if s == 2 { Some(p2) } else { Some(p3) };
+        let both = match sender { Some(p) => outer.contains(&p) && inner.contains(&p), None => false };
+        if let Some(p) = sender { if outer.contains(&p) && !inner.contains(&p) { cover(0); } }
+        let mut svc = RequireAuthorization::new(RequireAuthorization::new(Counting { calls: 0, last_sender: None }, AllowedPeers::new(inner)), AllowedPeers::new(outer));
+        let _fut = svc.call(Request { sender, body: Bytes(9), ext: Extensions::default() });
+        assert!((svc.inner.inner.calls == 1) == both && svc.inner.inner.calls <= 1, "the innermost service was invoked for a sender that is not in both allow-lists (or not invoked for one that is)");
+    }
+    // an authorizer whose verdict depends on the request itself (as user-supplied closures do): accepts iff the body says so
+    pub struct FlagAuth;
+    impl AuthorizeRequest for FlagAuth {
+        fn authorize(&self, request: &mut Request<Bytes>) -> std::result::Result<(), Response<Bytes>> { if request.body.0 == 1 { Ok(()) } else { Err(Response { status: StatusCode::BadRequest, body: Bytes(77) }) } }
+    }
+    pub fn gate_sequence(ch: &mut Chooser) { // @EOBL [C20] @BOUNDED every sequence of 3 requests (sender absent / peer 1 / peer 2; acceptable to the authorizer or not) through ONE instance of the layered service, with an authorizer whose verdict depends on the request: for every request of the sequence the wrapped service is invoked iff the authorizer accepted THAT request, and a refusal carries exactly the authorizer's response -- whatever was decided for earlier requests
+        let (p1, p2) = (PeerId([1; 32]), PeerId([2; 32]));
+        let mut svc = RequireAuthorization::new(Counting { calls: 0, last_sender: None }, FlagAuth);
+        let mut expected_calls = 0;
+        let mut prev: Option<(Option<PeerId>, bool)> = None;
+        let mut i = 0;
+        while i < 3 {
+            let s = ch.below(3);
+            let sender = if s == 0 { None } else if s == 1 { Some(p1) } else { Some(p2) };
+            let ok = ch.any_bool();
+            if let Some((ps, pok)) = prev { if ps == sender && sender.is_some() && pok && !ok { cover(0); } }
+            prev = Some((sender, ok));
+            let fut = svc.call(Request { sender, body: Bytes(if ok { 1 } else { 0 }), ext: Extensions::default() });
+            if ok { expected_calls += 1; }
+            assert!(svc.inner.calls == expected_calls, "the wrapped service was invoked for a refused request (or not invoked for an accepted one)");
+            match fut.kind {
+                Kind::Future { .. } => assert!(ok, "a refused request got the service's future"),
+                Kind::Error { response } => { assert!(!ok); assert!(response == Some(Response { status: StatusCode::BadRequest, body: Bytes(77) }), "the refusal does not carry exactly the authorizer's response"); }
+            }
+            i += 1;
+        }
+    }
     pub fn allow_list_layer(ch: &mut Chooser) { // @EOBL [C20] @BOUNDED the allow-list authorizer behind the authorization layer for every allow-list over 2 peers (4 lists) x sender absent / peer 1 / peer 2 / peer 3: the wrapped service is invoked (once, with that request) iff the sender is listed; NotFound for other senders, InternalServerError without sender identity; a refusal never reaches the service
         let (p1, p2, p3) = (PeerId([1; 32]), PeerId([2; 32]), PeerId([3; 32]));
         let mut list = Vec::new();
@@ -164,7 +222,7 @@ pub mod harness {
         let listed = match sender { Some(p) => list.contains(&p), None => false };
         if list.is_empty() && sender.is_none() { cover(0); }
         let mut svc = RequireAuthorization::new(Counting { calls: 0, last_sender: None }, AllowedPeers::new(list));
-        let fut = svc.call(Request { sender, body: Bytes(9) });
+        let fut = svc.call(Request { sender, body: Bytes(9), ext: Extensions::default() });
         match fut.kind {
             Kind::Future { future } => { assert!(listed, "an unlisted or anonymous request reached the service"); assert!(future == 1 && svc.inner.calls == 1 && svc.inner.last_sender == sender); }
             Kind::Error { response } => {
